@@ -777,6 +777,13 @@ impl<'a> Monitor<'a> {
                         }
                     }
                 }
+                // C18: what a source built from valid inputs shades must be a valid premultiplied colour
+                if let Some(v) = src_v.as_ref() {
+                    self.st.add("source_px_premul_asserted", v.len() as u64);
+                    if let Some(k) = v.iter().position(|p| !valid_premul(*p)) {
+                        self.viol("C18", format!("the source of {} shades pixel ({},{}) as {} (a colour channel exceeds alpha)", op.name(), k as i32 % self.w, k as i32 / self.w, hex(v[k])));
+                    }
+                }
                 let name = op.name();
                 if nl > 0 {
                     let (lb, lrect) = &before.1[nl - 1];
